@@ -1,6 +1,7 @@
 package main
 
 import (
+	"go/types"
 	"fmt"
 	"sort"
 	"strings"
@@ -245,6 +246,25 @@ func (fv *FuncVerifier) merge2(a, b *State) *State {
 			b.cells[c] = b.promote(vb)
 		}
 	}
+	// an object that has become a heap object on one side only (e.g. before a loop that one of
+	// the two paths went through): it becomes one on the other side as well
+	promoteIn := func(dst, src *State) {
+		for c := range src.promoted {
+			if _, done := dst.promoted[c]; done {
+				continue
+			}
+			cv, exists := dst.cells[c]
+			if !exists || cv.Place != nil || cv.Clo != nil {
+				continue
+			}
+			func() {
+				defer func() { _ = recover() }()
+				dst.promote(Value{Typ: types.NewPointer(cv.Typ), L: []Term{I(0)}, Place: &Place{Kind: PLocal, Typ: cv.Typ, Cell: c}})
+			}()
+		}
+	}
+	promoteIn(a, b)
+	promoteIn(b, a)
 	g := enc.fresh("join", SBool)
 	m := a.clone()
 	// path conditions: common prefix + guarded suffixes
